@@ -422,6 +422,13 @@ func (x *exec) binop(op token.Token, a, b Value, xt, yt types.Type, s *State, po
 		ib, okb := b.(IfaceV)
 		if oka && okb {
 			eq := c.And(c.Eq(ia.Tag, ib.Tag), c.Eq(ia.Box, ib.Box))
+			// comparison with the nil interface: an interface is nil iff its
+			// type word is nil
+			if ib.Tag.Op == "int" && ib.Tag.IVal.Sign() == 0 {
+				eq = c.Eq(ia.Tag, c.IntC(0))
+			} else if ia.Tag.Op == "int" && ia.Tag.IVal.Sign() == 0 {
+				eq = c.Eq(ib.Tag, c.IntC(0))
+			}
 			if op == token.EQL {
 				return eq
 			}
